@@ -84,6 +84,8 @@ UNITS = [
       ("CHK_TBL_NAME", "((unsigned char *)_HDF_CHK_TBL_NAME)", "strlen(_HDF_CHK_TBL_NAME)"),
       ("CHK_FIELD_NAMES", "((unsigned char *)_HDF_CHK_FIELD_NAMES)", "strlen(_HDF_CHK_FIELD_NAMES)")]),
     ("Hcomp", '#include "hdf_priv.h"\n#include "%s/hcomp.c"\n' % HS, ["COMP_HEADER_VERSION", "COMP_START_BLOCK"], []),
+    # C02 format reader: the member the SD interface adds to its NDG groups and never writes as an element
+    ("FmtNc", '#include "hdf_priv.h"\n#include "nc_priv.h"\n', ["BOGUS_TAG"], []),
     # element / linked-block layer (C01): special-tag bit arithmetic evaluated by the compiler on the real macros
     ("Elem", '#include "hdf_priv.h"\n#include "hfile_priv.h"\n',
      [("SPECIAL_TAG_BIT", "MKSPECIALTAG(0)"), ("MKSPECIAL_100", "MKSPECIALTAG(100)"), ("MKSPECIAL_LINKED", "MKSPECIALTAG(DFTAG_LINKED)"),
